@@ -256,8 +256,74 @@ def rule_sanit(ctx) -> None:
     ctx.floor("C20.SANIT", "stores of state.graph / state.gel in the boot loader", n_sets, 4)
 
 
+def rule_import_atomic(ctx) -> None:
+    """the boot loader's store import is all-or-nothing: inside its fail-soft `try`, nothing that can still raise on snapshot
+    content (parsing an item, a loop over the file's list) runs after the first write to the live store.  Otherwise a damaged
+    snapshot is 'rejected' (loaded: False, nothing raised) although the store has already been wiped and half refilled, and the
+    turn's apply record and final store differ from a run that booted with no snapshot."""
+    fn = ctx.func("clematis.engine.snapshot:_import_store_from_snapshot")
+    cfg = ctx.cfg(fn)
+    rd = ctx.rd(fn)
+    storep = fn.params[0]
+    # names aliasing the live store or a part of it
+    live = {storep}
+    for _ in range(3):
+        for d in rd.all_defs:
+            if d.kind == "assign" and d.value is not None and d.name not in live:
+                root = d.value
+                while isinstance(root, (ast.Attribute, ast.Subscript)):
+                    root = root.value
+                if isinstance(root, ast.Name) and root.id in live and isinstance(d.value, (ast.Attribute, ast.Subscript)):
+                    live.add(d.name)
+    def is_live_write(n) -> bool:
+        a = n.ast
+        if n.kind != "stmt" or a is None:
+            return False
+        if isinstance(a, (ast.Assign, ast.AugAssign)):
+            for t in (a.targets if isinstance(a, ast.Assign) else [a.target]):
+                root = t
+                while isinstance(root, (ast.Attribute, ast.Subscript)):
+                    root = root.value
+                if isinstance(t, (ast.Attribute, ast.Subscript)) and isinstance(root, ast.Name) and root.id in live:
+                    return True
+        for c in node_calls(n):
+            if isinstance(c.func, ast.Attribute) and c.func.attr in ("clear", "update", "pop", "setdefault", "append", "extend", "remove", "popitem", "__setitem__"):
+                root = c.func.value
+                while isinstance(root, (ast.Attribute, ast.Subscript)):
+                    root = root.value
+                if isinstance(root, ast.Name) and root.id in live:
+                    return True
+        return False
+    writes = [n for n in cfg.nodes if is_live_write(n)]
+    ctx.floor("C20.NEUTRAL", "writes to the live store in the snapshot importer", len(writes), 2)
+    handlers = [n for n in cfg.nodes if n.kind == "handler"]
+    bad = None
+    for w in writes:
+        # a later node of the same try that raises into the handler, other than a write whose operands are plain locals
+        for m in cfg.reach([w], include_start=False, edge_ok=no_exc):
+            if m is w or m.kind in ("handler", "exit"):
+                continue
+            raises_to_handler = any(lab == "exc" and t in handlers for t, lab in m.succ)
+            if not raises_to_handler:
+                continue
+            if is_live_write(m):
+                # allowed only if the written value is a local already computed (no parsing in the same statement)
+                calls = [c for c in node_calls(m) if (dotted(c.func) or "") in ("float", "int", "str") or call_tail(c) == "get"]
+                if not calls and not (m.kind == "iter"):
+                    continue
+            bad = (w, m)
+            break
+        if bad:
+            break
+    ctx.check(bad is None, "C20.NEUTRAL", f"{fn.qual}/import-all-or-nothing", fn.loc(bad[1].ast) if bad else fn.loc(),
+              "the parsed content is built aside and the live store is only touched by the final swap",
+              (f"after the live store is written (`{src(bad[0].ast)[:40]}`) the importer can still raise on snapshot content at `{src(bad[1].ast)[:50]}`: the damaged snapshot is reported as not loaded "
+               "while the store is already wiped / half refilled, so the turn no longer equals a run that booted without a snapshot") if bad else "")
+
+
 def run(ctx) -> None:
     rule_sanit(ctx)
+    rule_import_atomic(ctx)
     rule_sanit_fields(ctx)
     n_sites = 0
     handlers_seen: Dict[int, Tuple[Func, ast.Try, str]] = {}
